@@ -280,11 +280,13 @@ pub fn main(args: &[String]) {
         "deeprace" => {
             let n: usize = args[1].parse().unwrap();
             let iters: usize = args[2].parse().unwrap();
+            // two shapes: deep for the parser only (parentheses vanish from the tree) and deep for parser and evaluator alike
             let text = format!("{}3 + 4{}", "(".repeat(100), ")".repeat(100));
+            let text2 = format!("{}1{}", "1+(".repeat(60), ")".repeat(60));
             let barrier = Arc::new(Barrier::new(n));
             let mut hs = Vec::new();
             for _ in 0..n {
-                let (b, t) = (barrier.clone(), text.clone());
+                let (b, t, t2) = (barrier.clone(), text.clone(), text2.clone());
                 hs.push(std::thread::Builder::new().stack_size(8 << 20).spawn(move || {
                     b.wait();
                     for _ in 0..iters {
@@ -294,6 +296,10 @@ pub fn main(args: &[String]) {
                         }
                         if parse_expression(&t).is_err() {
                             return "parse-err".to_string();
+                        }
+                        let r2 = show(execute(&t2, Context::new()));
+                        if r2 != "ok:Number(61)" {
+                            return r2;
                         }
                     }
                     "ok".to_string()
